@@ -203,6 +203,15 @@ fn execute(sc: &Scenario, out: &mut Outcome) {
         out.states.push(format!("{}|cuts{}|short{}", d.family, d.cuts.len().min(4), d.short_reads as u8));
     }
 
+    simcore::with(|w| {
+        for d in &sc.deliveries {
+            w.count_n("fault.segment_cut", d.cuts.len() as u64);
+            w.count_n("fault.delay_between_segments", d.gaps_ms.iter().filter(|g| **g > 0).count() as u64);
+            if d.family == "pipelined" {
+                w.count("fault.pipelined_delivery");
+            }
+        }
+    });
     rt::serve(sess::build_app());
 
     // baseline: one segment per request, each after the previous response
